@@ -89,17 +89,25 @@ ArchWalk(all, j, L) ==
                       \* the walk goes from new to old: this candidate's pause request precedes those of older ones
                       [ elig |-> (IF e.ok THEN {p} ELSE {}) \cup rest.elig, ops |-> e.ops \o rest.ops ]
 
-\* garbageCollectRevisions: the len(prev) - limit oldest previous revisions
-PruneOps(prevSorted, limit) ==
-    LET k == Len(prevSorted) - limit IN
-    IF k <= 0 THEN <<>> ELSE [ i \in 1..k |-> [op |-> "del", n |-> prevSorted[i]] ]
+\* garbageCollectRevisions: the len(prev) - limit oldest previous revisions, oldest first, stopping at the first one that
+\* is NOT archived (fix 244db63: a revision that is not archived may still be serving; before the fix the oldest k were
+\* deleted whatever their state)
+RECURSIVE PruneFrom(_, _, _)
+PruneFrom(s, k, L) ==
+    IF s = <<>> \/ k <= 0 THEN <<>>
+    ELSE IF L[Head(s)].life = "Archived" THEN << [op |-> "del", n |-> Head(s)] >> \o PruneFrom(Tail(s), k - 1, L)
+    ELSE <<>>
+PruneOps(prevSorted, limit, L) == PruneFrom(prevSorted, Len(prevSorted) - limit, L)
 
-\* markObjectSetsForArchival: in ascending revision order; pruning after each archived candidate
+\* markObjectSetsForArchival: in ascending revision order; pruning after each archived candidate (which sees the
+\* candidates archived so far as archived: the list entries are the objects just updated)
 RECURSIVE MarkOps(_, _, _, _)
 MarkOps(s, L, prevSorted, limit) ==
     IF s = <<>> THEN <<>>
-    ELSE (IF L[Head(s)].life # "Archived" /\ L[Head(s)].stPaused THEN << [op |-> "archive", n |-> Head(s)] >> ELSE <<>>)
-         \o PruneOps(prevSorted, limit) \o MarkOps(Tail(s), L, prevSorted, limit)
+    ELSE LET arch == L[Head(s)].life # "Archived" /\ L[Head(s)].stPaused
+             L2 == IF arch THEN [ L EXCEPT ![Head(s)].life = "Archived" ] ELSE L
+         IN (IF arch THEN << [op |-> "archive", n |-> Head(s)] >> ELSE <<>>)
+            \o PruneOps(prevSorted, limit, L2) \o MarkOps(Tail(s), L2, prevSorted, limit)
 
 \* the whole pass after the list
 Plan(snap, L0) ==
